@@ -1,5 +1,68 @@
-From HT Require Import Base.Prelude World.World.
-(* placeholder: replaced when the world-level theorems land *)
-Theorem C14_failed_tx_unchanged : forall w o e, exec w o = Err e -> step w o = w.
-Proof. intros w o e H. unfold step. now rewrite H. Qed.
-Print Assumptions C14_failed_tx_unchanged.
+(* C14 — Privileged and internal entry points reject every other caller.
+   [exec w o = Ok w'] is a successful top-level transaction on the world model; a failed one leaves
+   the world unchanged ([step]). *)
+From HT Require Import Base.Prelude Num.Arith Amm.Formulas Amm.Guards World.World Proofs.AuthProofs.
+
+Theorem C14_factory_update_config : forall w c o w', fac_update_config w c o = Ok w' ->
+  c = w_owner w /\ w_owner w' = match o with Some x => x | None => w_owner w end.
+Proof. exact fac_update_config_auth. Qed.
+Theorem C14_factory_create_pair : forall w c a0 a1 wl m0 m1 cm ld w',
+  fac_create_pair w c a0 a1 wl m0 m1 cm ld = Ok w' -> c = w_owner w.
+Proof. exact fac_create_pair_auth. Qed.
+Theorem C14_factory_add_native : forall w c dn k w', fac_add_native w c dn k = Ok w' -> c = w_owner w.
+Proof. exact fac_add_native_auth. Qed.
+Theorem C14_factory_migrate : forall w c ct w', fac_migrate_pair w c ct = Ok w' -> c = w_owner w /\ w' = w.
+Proof. exact fac_migrate_auth. Qed.
+Theorem C14_factory_exec : forall w o w', exec w o = Ok w' ->
+  match o with
+  | OFacUpdateConfig c _ | OFacCreatePair c _ _ _ _ _ _ _ | OFacAddNative c _ _ | OFacMigrate c _ => c = w_owner w
+  | _ => True end.
+Proof. exact exec_fac_auth. Qed.
+
+Theorem C14_pair_update_decimals : forall w p c dn d0 d1 w', exec w (OPairUpdateDecimals p c dn d0 d1) = Ok w' ->
+  exists ps, w_pairs w p = Some ps /\ c = p_fac ps.
+Proof. exact exec_pair_update_decimals_auth. Qed.
+Theorem C14_pair_withdraw_hook : forall w p ps c funds cs ca w',
+  pair_receive w p ps c funds cs ca HWithdraw = Ok w' -> c = p_lp ps.
+Proof. exact pair_receive_withdraw_auth. Qed.
+Theorem C14_pair_swap_hook : forall w p ps c funds cs ca offer amount bp ms to w',
+  pair_receive w p ps c funds cs ca (HSwap offer amount bp ms to) = Ok w' ->
+  (p_a0 ps = AToken c \/ p_a1 ps = AToken c) /\ offer = AToken c /\ amount = ca.
+Proof. exact pair_receive_swap_auth. Qed.
+Theorem C14_pair_other_hooks_rejected : forall w p ps c funds cs ca h,
+  (h = HGarbage \/ exists ops m to, h = HRouterOps ops m to) -> exists e, pair_receive w p ps c funds cs ca h = Err e.
+Proof. exact pair_receive_other_rejected. Qed.
+
+Theorem C14_router_single_hop : forall w c funds offer ask to w',
+  exec w (ORouterOp c funds offer ask to) = Ok w' -> c = w_rtr w.
+Proof. exact router_op_auth. Qed.
+Theorem C14_router_assert_min : forall w c t prev m r w',
+  exec w (ORouterAssertMin c t prev m r) = Ok w' -> c = w_rtr w /\ w' = w.
+Proof. exact router_assert_min_auth. Qed.
+
+(* a rejected call changes no state and no balance *)
+Theorem C14_rejected_unchanged : forall w o e, exec w o = Err e -> step w o = w.
+Proof. exact step_failed_unchanged. Qed.
+
+(* history level: ownership moves only by a successful UpdateConfig submitted by the current owner *)
+Theorem C14_owner_changes_only_by_update_config : forall w o, w_owner (step w o) <> w_owner w ->
+  exists x, o = OFacUpdateConfig (w_owner w) (Some x) /\ w_owner (step w o) = x.
+Proof. exact owner_changes_only_by_update_config. Qed.
+Theorem C14_owner_after_run : forall ops w,
+  (forall o, In o ops -> match o with OFacUpdateConfig _ _ => False | _ => True end) -> w_owner (run w ops) = w_owner w.
+Proof. exact owner_after_run. Qed.
+
+Print Assumptions C14_factory_update_config.
+Print Assumptions C14_factory_create_pair.
+Print Assumptions C14_factory_add_native.
+Print Assumptions C14_factory_migrate.
+Print Assumptions C14_factory_exec.
+Print Assumptions C14_pair_update_decimals.
+Print Assumptions C14_pair_withdraw_hook.
+Print Assumptions C14_pair_swap_hook.
+Print Assumptions C14_pair_other_hooks_rejected.
+Print Assumptions C14_router_single_hop.
+Print Assumptions C14_router_assert_min.
+Print Assumptions C14_rejected_unchanged.
+Print Assumptions C14_owner_changes_only_by_update_config.
+Print Assumptions C14_owner_after_run.
